@@ -123,6 +123,15 @@ def add_annotations(rng, case, with_cites):
             e["refs"] = sorted(set(e["refs"]))
         nrefs = len(e["refs"])
         e["feats"] = feats_to_json(gen.gen_features(rng, n, rng.choice([0, 2, 4]), allow_cites=nrefs))
+    # the same backbone element annotated alike in two of the inputs: equal features (type, location, qualifiers,
+    # citation text) that are different objects
+    ents = [case["vector"]] + case["mods"]
+    if with_cites and len(ents) >= 2 and rng.random() < 0.4:
+        a, b = rng.sample(ents, 2)
+        if a["refs"] and b["refs"]:
+            twin = [3, "u88", ["i1"], [[0, 2, 1]]]
+            a["feats"] = list(a["feats"]) + [twin]
+            b["feats"] = list(b["feats"]) + [list(twin)]
 
 
 def check_case(ctx, case):
